@@ -3,12 +3,15 @@ from . import common, generic
 
 RULE = ("one evaluation = one scenario on a real StdScheduler (public API, a JobQueue wrapper that can stall one call): the execution loop is parked on "
         "{empty queue, far-future head (1 h), paused head, a 100 ms job in blocking mode, a full worker pool (WorkerLimit 1, worker busy 100 ms), 'vanishing' = a due job that is removed (DeleteJob / behind the scheduler's back, as another node "
-        "sharing the queue would) while the loop is between its Head() and its tick, so that the tick finds an honestly empty queue} x the call under "
+        "sharing the queue would) while the loop is between its Head() and its tick, so that the tick finds an honestly empty queue, 'ended' = a job whose custom trigger "
+        "ends with an error of its own (not ErrTriggerExpired; bare or wrapped) has just fired for the last time} x the call under "
         "test is {ScheduleJob of a new job due in 3..10 ms, ScheduleJob with Replace bringing an existing 1 h job forward, ResumeJob of a paused job whose trigger "
         "is due in 3..10 ms} x a stall of 20..40 ms is injected into {the loop's next Size() call, its next Head() call (both read the queue first, then sleep: the "
         "call under test is issued while the loop is inside the stalled call, i.e. between reading the queue and blocking in select), the queue mutation of the "
         "call under test itself (sleeps before it takes effect, so a token sent too early would be used up), nothing} x concurrently other jobs are "
-        "{deleted, paused, cleared immediately before the call, left alone}: 288 cells, each run twice (quick); RetryInterval is 2 s in every scenario, so a back-off started without a queue failure would show as a late job; with seeded delays, 12 schedulers in parallel. "
+        "{deleted, paused, cleared immediately before the call, left alone}: 336 cells, each run twice (quick); the one-shot triggers of the auxiliary jobs (blocker, pool filler, vanishing job) "
+        "and of the job under test end with {ErrTriggerExpired, an error of their own, either of them wrapped}; RetryInterval is 2 s in every scenario, so a back-off started without a queue failure "
+        "(e.g. by a trigger's own end-of-schedule error) would show as a late job; with seeded delays, 12 schedulers in parallel. "
         "Verdict: Execute of the job starts within 300 ms of max(API return, its fire time, end of the blocking job / the worker becoming free). Not started after "
         "300 ms + 2 s more = violation at once; started late = the scenario is re-run alone up to three times and is a violation only if late again. "
         "A scenario is non-trivial when the loop was really parked / the stall was really entered (reported as stall '...-not-reached' otherwise); distinct by cell. "
@@ -24,11 +27,11 @@ def run(ctx):
     if not b.get("go_ok"):
         common.report_violation(ctx, "the harness no longer builds against /repo", {"log": b.get("go_log", "")[-2000:]}, no_input=True)
         return common.finish(ctx)
-    n = 576 if not ctx.thorough else 2880
+    n = 672 if not ctx.thorough else 3360
     results = [generic.engine_run(ctx, "wakeup", ["--seed", str(ctx.seed), "--n", str(n)], "main", timeout=900)]
     if ctx.thorough:
         for k, par in enumerate([4, 12, 32], 1):
-            results.append(generic.engine_run(ctx, "wakeup", ["--seed", str(ctx.seed * 1000 + k), "--n", "960", "--par", str(par)], "extra%d" % k, timeout=900))
+            results.append(generic.engine_run(ctx, "wakeup", ["--seed", str(ctx.seed * 1000 + k), "--n", "1008", "--par", str(par)], "extra%d" % k, timeout=900))
     bad = generic.proof_cov(ctx, extra_trusted=[
         "Go channel semantics: a send on a channel with a free buffer slot stores the token, `select` with `default` never blocks, a receive in `select` takes a "
         "stored token; an unbuffered send succeeds only as a rendezvous with a blocked receiver (the model's `send`)",
@@ -40,7 +43,7 @@ def run(ctx):
         "'promptly' in wall-clock terms (timer accuracy, goroutine scheduling) is observed by the scenario matrix, not proved; the model makes no fairness or "
         "timing assumption: it proves that a parked loop with no token pending is armed no later than the earliest fire time of the current queue"])
     generic.judge(ctx, results, bad, "wakeup",
-                  widen=lambda: (generic.engine_run(ctx, "wakeup", ["--seed", str(ctx.seed * 7919 + k), "--n", "960"], "search%d" % k, timeout=900) for k in range(1, 3)))
+                  widen=lambda: (generic.engine_run(ctx, "wakeup", ["--seed", str(ctx.seed * 7919 + k), "--n", "1008"], "search%d" % k, timeout=900) for k in range(1, 3)))
     generic.fill_coverage(ctx, results, RULE)
     ctx.coverage["traces_validated_against_impl"] = 0
     ctx.coverage["note"] = "concurrency property: stats.json only, no ops.txt/impl.txt; the harness's own oracle judges the real code"
